@@ -87,15 +87,16 @@ func hasSmallFactor(n *big.Int) bool {
 
 func runC16(c *Ctx, tier string) {
 	r := NewReport("C16", "other", tier, c)
-	r.Explanation = "(1) prime-table: the literals of util.bigIntPrimes are read from the syntax tree and must be exactly the primes below 752 (sieve in the checker), without duplicates; util.zero is big.NewInt(0); neither is written outside its declaration. (2) trial-division: the decision table of PrimeNoSmallerThan752 (loop unrolled twice; per iteration DivMod(q, dividend, primes[i], m) followed by m.Cmp(zero) == 0 ⇒ false; true after the loop) — with the table clause this gives: false iff some prime below 752 divides the argument. (3) threshold tables: for each of the 13 key-quality lints the decision table of Execute is extracted with big.Int operations as atoms (BitLen, Mod, Cmp, NewInt) and evaluated by the checker's own arithmetic on moduli of bit length 1, 8, 1016..1025, 2040..2049, 2056, 3064..3073, 4096 (odd and even, with and without small factors, small moduli 0..40) and exponents -3..5, 65535..65538, 2^31-1, 2^62; operator, constant, polarity and status must all agree with the stated predicate (e.g. BitLen(N) < 2048 ⇒ Error). The exponent-range lint's upper bound is the constructor's Exp(2,256). Because the code touches N and E only through these atoms the evaluation points (both sides of every constant met) decide all inputs. (4) fermat-rounds: the round loop of checkPrimeFactorsTooClose runs i = 0..rounds-1 with rounds = the configured field. NOT decided: that the Fermat search finds every close pair within the rounds and that reported factors multiply back to the modulus (numerical loop over big.Int — out of reach of this technique), nor big.Int's own correctness."
-	r.Rule("prime-table; trial-division; threshold-table (13 lints); exp-upper-bound; fermat-rounds")
+	r.Explanation = "(1) prime-table: the literals of util.bigIntPrimes are read from the syntax tree and must be exactly the primes below 752 (sieve in the checker), without duplicates; util.zero is big.NewInt(0); neither is written outside its declaration. (2) trial-division: the decision table of PrimeNoSmallerThan752 (loop unrolled twice; per iteration DivMod(q, dividend, primes[i], m) followed by m.Cmp(zero) == 0 ⇒ false; true after the loop) — with the table clause this gives: false iff some prime below 752 divides the argument. (3) threshold tables: for each of the 13 key-quality lints the decision table of Execute is extracted with big.Int operations as atoms (BitLen, Mod, Cmp, NewInt) and evaluated by the checker's own arithmetic on moduli of bit length 1, 8, 1016..1025, 2040..2049, 2056, 3064..3073, 4096 (odd and even, with and without small factors, small moduli 0..40) and exponents -3..5, 65535..65538, 2^31-1, 2^62; operator, constant, polarity and status must all agree with the stated predicate (e.g. BitLen(N) < 2048 ⇒ Error). The exponent-range lint's upper bound is the constructor's Exp(2,256). Because the code touches N and E only through these atoms the evaluation points (both sides of every constant met) decide all inputs. (4) fermat-rounds: the round loop of checkPrimeFactorsTooClose runs i = 0..rounds-1 with rounds = the configured field. (5) fermat-schema: the function's paths (loop unrolled 3×, module callees inlined) are interpreted over polynomials in n and s = ⌊√n⌋ (big.Int Sqrt/Add/Sub/Mul/Set/Cmp modelled; Sqrt of a non-square is an opaque non-negative atom) and must match Fermat's method: init a = s+1, b2 = a²−n; the only branch of round j is b2 == (⌊√b2⌋)² with b2 = (s+1+j)²−n (for j ≥ 1 this is the step a←a+1, b2←a²−n, a polynomial identity in the free indeterminate s and therefore valid for every round); a hit returns a non-nil error and the two big numbers it reports multiply to n after substituting r² = b2 (the branch condition); nil is returned only after i < rounds fails; Execute maps error ⇒ Error, nil ⇒ Pass. Any other branch or big.Int mutation inside the function is reported as undecided. NOT decided: big.Int's own correctness and the number theory of Fermat's method itself (that (p+q)/2 − ⌈√n⌉ < rounds for 'close' primes is arithmetic about the inputs, not about the code)."
+	r.Rule("prime-table; trial-division; threshold-table (13 lints); exp-upper-bound; fermat-rounds; fermat-schema (init, step, found, exit, verdict)")
 	r.Trusted = []string{"math/big", "go/ssa", "the checker's own transcription of each stated predicate (DESIGN §8)"}
-	r.Assumptions = []string{"Fermat clause not decided (numerical); applicability pairing of the type assertions belongs to C02"}
+	r.Assumptions = []string{"math/big is trusted; the Fermat clause is decided as agreement of the code with the algorithm schema, not by running it; applicability pairing of the type assertions belongs to C02"}
 
 	c16Primes(c, r)
 	c16TrialDivision(c, r)
 	c16Thresholds(c, r)
 	c16Fermat(c, r)
+	c16FermatSchema(c, r)
 	r.Finish()
 }
 
